@@ -628,7 +628,7 @@ build_units(void)
 
 	/* the expensive units first, so that the pool is balanced */
 	if (do_long && (algmask & BIT_LONG)) for (a = A_SHA256; a <= A_MD5; a++) if (algmask & ALG[a].bit) add_unit(A_LONG, 0, -1, a);
-	if (algmask & BIT_CRC) for (i = 0; i < (int)(profile == P_THOROUGH ? NHUGE_ALL : profile == P_QUICK ? 6 : 3); i++) add_unit(A_CRCHUGE, 0, -1, i);
+	if (algmask & BIT_CRC) for (i = 0; i < (int)(profile == P_THOROUGH ? NHUGE_ALL : profile == P_QUICK ? 6 : profile == P_C03T ? 3 : 1); i++) add_unit(A_CRCHUGE, 0, -1, i);
 	for (a = 0; a < A_NALG; a++) {
 		if (!(algmask & ALG[a].bit)) continue;
 		for (c = 0; c < HC_NCONTENT; c++) {
